@@ -41,6 +41,12 @@ THEOREMS = [
     "IrVerif.Scope.C17_meta_idempotent",
     "IrVerif.Scope.C17_idempotent_decorated",
     "IrVerif.Scope.C17_meta_aligned",
+    "IrVerif.Scope.C17_ir9_not_idempotent",
+    "IrVerif.Scope.C17_ext_erasure",
+    "IrVerif.Scope.C17_consistent_ext",
+    "IrVerif.Scope.C17_total_ext",
+    "IrVerif.Scope.C17_ext_sharding_named",
+    "IrVerif.Scope.C17_idempotent_partial",
 ]
 ASSUMPTIONS = [
     "byte-level parsing is protobuf's; Python RecursionError counts as 'raises'",
@@ -1262,6 +1268,21 @@ def add_functions(rng, pg, m: onnx.ModelProto, hist: dict) -> None:
         hist["generated_function"] = hist.get("generated_function", 0) + 1
 
 
+def _flush(part, lean_reqs: list, pending: list) -> None:
+    """answer the queued model requests and diff them; the queues are emptied (bounded memory: the thorough tier
+    runs tens of thousands of cases per worker)"""
+    outs = lean_batch(lean_reqs)
+    for out, p in zip(outs, pending):
+        if p[0] == "D":
+            diff_deco(part, out, *p[1:])
+        elif p[0] == "E":
+            diff_ext(part, out, *p[1:])
+        else:
+            diff_case(part, out, *p)
+    lean_reqs.clear()
+    pending.clear()
+
+
 def _worker(args) -> Part:
     seed, n_field, n_bytes = args
     _quiet()
@@ -1290,6 +1311,8 @@ def _worker(args) -> Part:
         if len(valid_pool) < 40:
             valid_pool.append(_det(m))
         run_case(part, m, "field", True, lean_reqs, pending)
+        if len(lean_reqs) >= 2000:
+            _flush(part, lean_reqs, pending)
     for _ in range(n_bytes):
         data = mutate_bytes(rng, rng.choice(valid_pool), hist) if valid_pool else b""
         m = onnx.ModelProto()
@@ -1299,14 +1322,7 @@ def _worker(args) -> Part:
             part.count("bytes_rejected_by_protobuf")
             continue
         run_case(part, m, "bytes", False, lean_reqs, pending)
-    outs = lean_batch(lean_reqs)
-    for out, p in zip(outs, pending):
-        if p[0] == "D":
-            diff_deco(part, out, *p[1:])
-        elif p[0] == "E":
-            diff_ext(part, out, *p[1:])
-        else:
-            diff_case(part, out, *p)
+    _flush(part, lean_reqs, pending)
     for k, v in hist.items():
         part.count(k, v)
     return part
